@@ -2,7 +2,7 @@
    Property theorems only: each is closed by `exact <lemma>` (lemmas in Proofs/HolmP.v,
    Proofs/PenetranceP.v). *)
 From Coq Require Import ZArith List Bool Arith Lia Permutation Sorted.
-From CTM Require Import Base.Sx Model.Holm Model.Penetrance Model.Stats Model.Welch Proofs.HolmP Proofs.PenetranceP Proofs.BoringP.
+From CTM Require Import Base.Sx Model.Holm Model.Penetrance Model.Stats Model.Welch Model.Sparse Model.Transpose Proofs.HolmP Proofs.PenetranceP Proofs.BoringP Proofs.WelchP Proofs.MarkerTablesP.
 Import ListNotations.
 Open Scope Z_scope.
 
@@ -231,7 +231,10 @@ Proof. cbv zeta. repeat split; vm_compute; reflexivity. Qed.
      crit th exact sc               :=  if exact then strictly_passes th sc else above_floors th sc
      in_list mask g                 :=  no gene list, or gene g belongs to it *)
 
-(* soundness of approx_penetrance_test: an accepted gene is on or above every floor, for
+(* (Since the repair of F8 the floors are applied directly, so this soundness statement is BY
+   CONSTRUCTION OF THE MODEL - is_invalid is the negation of above_floors; its content is in the tie
+   of penetrance_parameter_distance / approx_penetrance_test to the code, tags 1103/1104.)
+   soundness of approx_penetrance_test: an accepted gene is on or above every floor, for
    EVERY setting the code accepts (each strict threshold above its floor), however close the
    floors are to the thresholds, and whichever branch (enough absolutely valid genes or not)
    is taken.  (Before the repair of F8 this needed each threshold >= 1e-5 above its floor.) *)
@@ -277,43 +280,48 @@ Print Assumptions c11_penetrance_complete.
      both clusters have at least n_cells_min cells, its (restricted) Holm-corrected p-value
      is below p_th, it belongs to the gene list, and it is on or above every floor
      (strictly above every strict threshold when exact penetrance is requested).
-   The hypotheses: q1_min_th > -1 (genes outside the list get q1 = -1) and
-   q1_th > q1_min_th (enforced by the code in the approximate mode). *)
-Theorem c11_sound : forall st mask x v up g,
+   The hypotheses: q1_min_th > -1 (genes outside the list get q1 = -1),
+   q1_th > q1_min_th (enforced by the code in the approximate mode) and pair_wf x: the per-gene
+   arrays of the pair have one length (numpy raises ValueError otherwise, the model is total:
+   c11_ragged_pair_is_totalised; pairs computed from a statistics file satisfy it:
+   c11_stats_pair_wf).  Here the raw p-values, scores and means are INPUTS of the pair; they are
+   computed from the statistics in c11_sound_from_stats below. *)
+Theorem c11_sound : forall st mask x v up g, pair_wf x ->
   - st_S st < q1_min (st_th st) -> q1_min (st_th st) < q1_th (st_th st) ->
   score_differential_genes st mask x = POk (v, up) -> nth_error v g = Some true ->
   st_n_min st <= pi_n1 x /\ st_n_min st <= pi_n2 x /\
   (exists a, nth_error (approx_correct_ttest (pi_SP x) (pi_T x) (pi_p x)) g = Some a /\ a < pi_T x) /\
   in_list mask g /\
   exists sc, nth_error (pi_scores x) g = Some sc /\ crit (st_th st) (st_exact st) sc.
-Proof. exact sdg_sound. Qed.
+Proof. exact sdg_sound_wf. Qed.
 Print Assumptions c11_sound.
 
 (* Completeness: a gene of the list whose corrected p-value is below p_th and which passes
    the three strict thresholds is recorded — in the first pass and in the relaxed second one *)
-Theorem c11_complete : forall st mask x v up g sc,
-  0 < st_S st -> length (pi_mean1 x) = length (pi_scores x) ->
+Theorem c11_complete : forall st mask x v up g sc, pair_wf x ->
+  0 < st_S st ->
   score_differential_genes st mask x = POk (v, up) ->
   st_n_min st <= pi_n1 x -> st_n_min st <= pi_n2 x ->
   (exists a, nth_error (approx_correct_ttest (pi_SP x) (pi_T x) (pi_p x)) g = Some a /\ a < pi_T x) ->
   in_list mask g ->
   nth_error (pi_scores x) g = Some sc -> strictly_passes (st_th st) sc ->
   nth_error v g = Some true.
-Proof. exact sdg_complete. Qed.
+Proof. exact sdg_complete_wf. Qed.
 Print Assumptions c11_complete.
 
-(* with exact penetrance requested nothing else is recorded *)
-Theorem c11_exact_iff : forall st mask x v up g,
+(* with exact penetrance requested nothing else is recorded.  (In exact mode the model's validity
+   IS the conjunction on the right - the equivalence is by construction of the model; its content is
+   in the tie of score_differential_genes with exact_penetrance=True, tag 1105 / 1152.) *)
+Theorem c11_exact_iff : forall st mask x v up g, pair_wf x ->
   st_exact st = true ->
   - st_S st < q1_min (st_th st) -> q1_min (st_th st) < q1_th (st_th st) -> 0 < st_S st ->
-  length (pi_mean1 x) = length (pi_scores x) ->
   score_differential_genes st mask x = POk (v, up) ->
   (nth_error v g = Some true <->
    st_n_min st <= pi_n1 x /\ st_n_min st <= pi_n2 x /\
    (exists a, nth_error (approx_correct_ttest (pi_SP x) (pi_T x) (pi_p x)) g = Some a /\ a < pi_T x) /\
    in_list mask g /\
    exists sc, nth_error (pi_scores x) g = Some sc /\ strictly_passes (st_th st) sc).
-Proof. exact sdg_exact_iff. Qed.
+Proof. exact sdg_exact_iff_wf. Qed.
 Print Assumptions c11_exact_iff.
 
 Definition c11_st : settings :=
@@ -323,6 +331,7 @@ Definition c11_x : pair_in :=
              [(900, 800, 2048); (900, 800, 2048); (300, 200, 900); (50, 800, 2048)]
              [0; 0; 900; 2048] [2048; 2048; 0; 0].
 Example c11_sound_complete_nonvacuous :
+  pair_wf c11_x /\
   - st_S c11_st < q1_min (st_th c11_st) /\
   q1_min (st_th c11_st) < q1_th (st_th c11_st) /\
   score_differential_genes c11_st None c11_x = POk ([true; false; true; false], [true; true; false; false]) /\
@@ -331,13 +340,50 @@ Example c11_sound_complete_nonvacuous :
   strictly_passes (st_th c11_st) (900, 800, 2048) /\ above_floors (st_th c11_st) (300, 200, 900) /\
   ~ strictly_passes (st_th c11_st) (300, 200, 900) /\ ~ above_floors (st_th c11_st) (50, 800, 2048).
 Proof.
-  split; [cbn; lia|]. split; [cbn; lia|].
+  split; [repeat split|]. split; [cbn; lia|]. split; [cbn; lia|].
   split; [vm_compute; reflexivity|].
   unfold strictly_passes, above_floors; cbn. repeat split; lia.
 Qed.
 
+(* the inputs the two hypotheses exclude are totalised by the model, not accepted by the code:
+   arrays of different lengths (numpy: ValueError) and zero workers (ZeroDivisionError); the harness
+   (totalisation_cases) checks on every run that the real functions raise there *)
+Example c11_ragged_pair_is_totalised :
+  let x := mk_pair_in 3 2 1024 10 [1] [(900, 800, 2048); (900, 800, 2048)] [0] [2048; 2048; 7] in
+  ~ pair_wf x /\ score_differential_genes c11_st None x = POk ([true], [true]).
+Proof. cbv zeta. split; [intros (A & _); discriminate A | vm_compute; reflexivity]. Qed.
+Example c11_zero_workers_is_totalised : n_per_of 100 0 = 8%nat.
+Proof. exact n_per_of_zero_workers. Qed.
+
+(* exact penetrance with a gene list: gene 0 strictly passes and is listed; gene 1 fails the p-value;
+   gene 2 is only above the floors; gene 3 strictly passes but is NOT in the list *)
+Example c11_exact_mode_gene_list_nonvacuous :
+  let st := mk_settings 1024 (mk_th 512 102 717 102 1024 819) 2 true 3 1 in
+  let x := mk_pair_in 3 2 1024 10 [1; 600; 2; 1]
+             [(900, 800, 2048); (900, 800, 2048); (300, 200, 900); (900, 800, 2048)]
+             [0; 0; 900; 2048] [2048; 2048; 0; 0] in
+  pair_wf x /\ st_exact st = true /\
+  score_differential_genes st (Some [true; true; true; false]) x
+  = POk ([true; false; false; false], [true; true; false; false]) /\
+  score_differential_genes st None x = POk ([true; false; false; true], [true; true; false; false]).
+Proof. cbv zeta. split; [repeat split|]. split; [reflexivity|]. split; vm_compute; reflexivity. Qed.
+
+(* the second, relaxed pass: n_valid = 2, n_valid_min = 2.  First pass: genes 0 and 1 are absolutely
+   valid (2 >= n_valid, no relaxation) but gene 1 fails the p-value: 1 valid gene < n_valid_min.
+   Second pass with the p-value failures masked out: only gene 0 is absolutely valid (1 < n_valid),
+   the relaxation admits gene 2 (above the floors).  With n_valid_min = 1 the first pass is final. *)
+Example c11_second_pass_nonvacuous :
+  let x := mk_pair_in 3 2 1024 10 [1; 600; 2] [(900, 800, 2048); (900, 800, 2048); (300, 200, 900)]
+                      [0; 0; 900] [2048; 2048; 0] in
+  let th := mk_th 512 102 717 102 1024 819 in
+  score_differential_genes (mk_settings 1024 th 2 false 2 2) None x = POk ([true; false; true], [true; true; false]) /\
+  score_differential_genes (mk_settings 1024 th 2 false 2 1) None x = POk ([true; false; false], [true; true; false]).
+Proof. cbv zeta. split; vm_compute; reflexivity. Qed.
+
 (* ------------------------------------------------------------------ *)
-(* direction = sign of the difference of the mean log2(CPM+1) *)
+(* direction = sign of the difference of the mean log2(CPM+1).  The first conjunct is by
+   construction of the model (up_mask is defined so); the content is in the tie (tags 1105, 1152: the
+   means are sum / max(1, n) computed from the statistics) and in the second conjunct + c11_pair_swap. *)
 Theorem c11_direction : forall st mask x v up,
   score_differential_genes st mask x = POk (v, up) ->
   (pi_n1 x <? st_n_min st) || (pi_n2 x <? st_n_min st) = false ->
@@ -365,20 +411,23 @@ Theorem c11_up_down_cover : forall v u g, length u = length v ->
 Proof. exact up_down_cover. Qed.
 Print Assumptions c11_up_down_cover.
 
-(* swapping the two clusters of a pair (cell counts and means exchanged; p-values, q1, qdiff
-   and |fold| are symmetric) leaves the validity mask unchanged and flips the direction of
+(* swapping the two clusters of a pair.  swap_pair exchanges cell counts and means and KEEPS the raw
+   p-values and the scores: that these are symmetric is no longer assumed but proved from the
+   statistics - c11_welch_swap_statistic (t -> -t, same t^2 and nu), c11_welch_swap_scores (q1, qdiff,
+   |fold| equal as numbers), c11_welch_swap_p (same p-value when t.cdf(-t) = 1 - t.cdf(t) and no clipping;
+   with clipping the two p-values differ, c11_welch_swap_p_clip_caveat, both being <= 2*(1 - ceil)).
+   Given that, the swap leaves the validity mask unchanged and flips the direction of
    every recorded gene, given log2_fold_min_th > 0 and log2_fold = |mean1 - mean2| *)
-Theorem c11_pair_swap : forall st mask x v up g,
+Theorem c11_pair_swap : forall st mask x v up g, pair_wf x ->
   - st_S st < q1_min (st_th st) -> q1_min (st_th st) < q1_th (st_th st) ->
   0 < fold_min (st_th st) -> fold_min (st_th st) < fold_th (st_th st) ->
-  length (pi_mean1 x) = length (pi_mean2 x) ->
   (forall g q1 qd f m1 m2, nth_error (pi_scores x) g = Some (q1, qd, f) ->
        nth_error (pi_mean1 x) g = Some m1 -> nth_error (pi_mean2 x) g = Some m2 -> f = Z.abs (m1 - m2)) ->
   score_differential_genes st mask x = POk (v, up) ->
   exists up', score_differential_genes st mask (swap_pair x) = POk (v, up') /\
     (nth_error v g = Some true ->
      forall b, nth_error up g = Some b -> nth_error up' g = Some (negb b)).
-Proof. exact sdg_pair_swap. Qed.
+Proof. exact sdg_pair_swap_wf. Qed.
 Print Assumptions c11_pair_swap.
 
 Example c11_pair_swap_nonvacuous :
@@ -397,9 +446,11 @@ Proof. exact chunk_merge. Qed.
 Print Assumptions c11_chunk_merge.
 
 (* hence the pair-major tables do not depend on the worker count *)
-Theorem c11_worker_independent : forall st gn gl np np' pairs,
+(* 1 <= n_processors: with 0 the code raises ZeroDivisionError (n_pairs // (2*n_processors)) where
+   the model's Z division gives n_per = 8 (c11_zero_workers_is_totalised) *)
+Theorem c11_worker_independent : forall st gn gl np np' pairs, (1 <= np)%nat -> (1 <= np')%nat ->
   find_markers st gn gl np pairs = find_markers st gn gl np' pairs.
-Proof. exact find_markers_workers. Qed.
+Proof. exact find_markers_workers_pos. Qed.
 Print Assumptions c11_worker_independent.
 
 (* the tables are written for EVERY outcome of the per-pair scoring (F17 repaired: a direction
@@ -426,6 +477,15 @@ Example c11_no_up_direction_nonvacuous :
                       [2048; 2048; 900] [0; 0; 0] in
   find_markers c11_st [0; 1; 2] None 1 [x] = POk (([0; 0]%nat, []), ([0; 2]%nat, [0; 2]%nat)).
 Proof. cbv zeta. vm_compute. reflexivity. Qed.
+
+(* more than one chunk: 9 pairs, one worker => n_per = 8, two chunks (8 + 1 pairs), merged *)
+Example c11_two_chunks_nonvacuous :
+  let pairs := repeat c11_x 9 in
+  length (chunk_list 9 (n_per_of 9 1) pairs) = 2%nat /\
+  find_markers c11_st [0; 1; 2; 3] None 1 pairs
+  = POk (([0; 1; 2; 3; 4; 5; 6; 7; 8; 9]%nat, [0; 0; 0; 0; 0; 0; 0; 0; 0]%nat),
+         ([0; 1; 2; 3; 4; 5; 6; 7; 8; 9]%nat, [2; 2; 2; 2; 2; 2; 2; 2; 2]%nat)).
+Proof. cbv zeta. split; vm_compute; reflexivity. Qed.
 
 Example c11_chunk_merge_nonvacuous :
   merge_sparse (map lookup_to_sparse (chunk_list 5 2 [[1; 4]; []; [0]; [2; 3; 5]; [7]]%nat)) 0
@@ -481,7 +541,7 @@ Proof. split; vm_compute; reflexivity. Qed.
 
 (* c11_sound with the FULL Holm-Bonferroni value (restricted-Holm equivalence composed in):
    recorded => the full Holm-corrected p-value is below p_th, for raw p-values in [0, 1] and p_th <= 1 *)
-Theorem c11_sound_full_holm : forall st mask x v up g,
+Theorem c11_sound_full_holm : forall st mask x v up g, pair_wf x ->
   Forall (fun q => 0 <= q <= pi_SP x) (pi_p x) -> pi_T x <= pi_SP x ->
   - st_S st < q1_min (st_th st) -> q1_min (st_th st) < q1_th (st_th st) ->
   score_differential_genes st mask x = POk (v, up) -> nth_error v g = Some true ->
@@ -489,5 +549,5 @@ Theorem c11_sound_full_holm : forall st mask x v up g,
   (exists h, nth_error (correct_ttest (pi_SP x) 0 (pi_p x)) g = Some h /\ h < pi_T x) /\
   in_list mask g /\
   exists sc, nth_error (pi_scores x) g = Some sc /\ crit (st_th st) (st_exact st) sc.
-Proof. exact sdg_sound_full_holm. Qed.
+Proof. exact sdg_sound_full_holm_wf. Qed.
 Print Assumptions c11_sound_full_holm.
